@@ -172,20 +172,29 @@ class Executor(object):
         self.pid, self.sc, self.known, self.stats = pid, sc, known, stats
 
     def __call__(self, case, count=True):
+        ok = self.guard(case, lambda: self.sc.body(case), count_excluded=count)
+        if ok and count:
+            self.done(case)
+
+    def guard(self, case, thunk, count_excluded=True):
+        """Run thunk (a whole body, or one step of a stateful history whose ops so far are `case`)
+        under isolation and bucketing.  True = fine; False = failed in a known-finding bucket
+        (excluded by construction, the caller abandons this case); raises on anything else."""
         st = self.stats
         take_labels()
         try:
             with isolated():
-                self.sc.body(case)
+                thunk()
         except Violation as v:
             key = '%s:%s' % (self.sc.name, v.kind)
             hit = self.known.match(self.pid, key)
             if hit is not None:
                 st.excluded[hit[0]] += 1
-                st.evaluations += 1 if count else 0
-                return
+                st.evaluations += 1 if count_excluded else 0
+                return False
             st.violation = dict(subcheck=self.sc.name, kind=v.kind,
-                                detail=abbrev(v.detail, 2000), case=strip_obs(case))
+                                detail=abbrev(v.detail, 2000),
+                                case=json.loads(json.dumps(strip_obs(case), default=repr)))
             raise
         except (KeyboardInterrupt, SystemExit):
             raise
@@ -195,8 +204,10 @@ class Executor(object):
             st.harness = dict(subcheck=self.sc.name, error=traceback.format_exc()[-3000:],
                               case=abbrev(strip_obs(case), 1500))
             raise HarnessError(str(e))
-        if not count:
-            return
+        return True
+
+    def done(self, case):
+        st = self.stats
         labels = sorted(set(list(self.sc.classify(case)) + take_labels()))
         st.evaluations += 1
         for lab in labels:
